@@ -57,7 +57,7 @@ func (S) Info() scen.Info {
 			"goroutine scheduling":   "stub: single walker task under the seeded scheduler",
 		},
 		QuickUnits: 2500, ThoroughUnits: 150000, QuickSecs: 240, ThoroughSecs: 1200,
-		ProbeKeys: []string{"probe.adl_reifier_invoked", "probe.walk_repeated_with_same_config", "probe.walklocal_visitor_skipme_cut", "probe.focus_nodebudget_cut", "probe.focus_linkbudget_cut", "probe.transform_once_cut", "probe.transform_linkbudget_cut", "probe.transform_skip_cut", "probe.budget_cut_mid_block", "probe.linkbudget_cut", "probe.startat_inside_linked_block", "probe.startat_skipped_load", "probe.once_pruned", "probe.skipme_pruned", "probe.resume_concat_checked", "probe.w0_ended_in_error", "probe.repeated_link", "probe.matching_walk", "probe.transform_budget_cut", "probe.walklocal_budget_cut"},
+		ProbeKeys: []string{"probe.package_level_walk", "probe.package_level_transform", "probe.package_level_focus", "probe.adl_reifier_invoked", "probe.walk_repeated_with_same_config", "probe.walklocal_visitor_skipme_cut", "probe.focus_nodebudget_cut", "probe.focus_linkbudget_cut", "probe.transform_once_cut", "probe.transform_linkbudget_cut", "probe.transform_skip_cut", "probe.budget_cut_mid_block", "probe.linkbudget_cut", "probe.startat_inside_linked_block", "probe.startat_skipped_load", "probe.once_pruned", "probe.skipme_pruned", "probe.resume_concat_checked", "probe.w0_ended_in_error", "probe.repeated_link", "probe.matching_walk", "probe.transform_budget_cut", "probe.walklocal_budget_cut"},
 		EventsKey: "events",
 	}
 }
@@ -201,6 +201,8 @@ func (s skipStore) Get(ctx context.Context, k string) ([]byte, error) {
 }
 
 type world struct {
+	pkgLevel bool // walkWith goes through the package-level functions (nothing configured)
+
 	s    *sim.Sim
 	t    *sim.Tape
 	lsys linking.LinkSystem
@@ -290,11 +292,18 @@ func (w *world) walkWith(cfg *traversal.Config, matching bool, budget *traversal
 				res.pan = fmt.Sprintf("%v", r)
 			}
 		}()
-		if matching {
+		switch {
+		case w.pkgLevel && matching:
+			res.err = traversal.WalkMatching(w.g.RootNode, w.sel, func(p traversal.Progress, n datamodel.Node) error {
+				return record(p, n, traversal.VisitReason_SelectionMatch)
+			})
+		case w.pkgLevel:
+			res.err = traversal.WalkAdv(w.g.RootNode, w.sel, record)
+		case matching:
 			res.err = prog.WalkMatching(w.g.RootNode, w.sel, func(p traversal.Progress, n datamodel.Node) error {
 				return record(p, n, traversal.VisitReason_SelectionMatch)
 			})
-		} else {
+		default:
 			res.err = prog.WalkAdv(w.g.RootNode, w.sel, record)
 		}
 	}()
@@ -343,6 +352,12 @@ func (S) RunTape(t *sim.Tape, st *sim.Stats, keepLog bool) *sim.Outcome {
 	gen.FieldHints = nil
 	if g.Root.K == model.Map {
 		gen.FieldHints = g.Root.Keys
+	}
+	gen.StopLinks = nil
+	for _, l := range g.Links {
+		if l != "" {
+			gen.StopLinks = append(gen.StopLinks, gen.LinkFromBin(l))
+		}
 	}
 	for try := 0; try < 5 && w.sel == nil; try++ {
 		if t.Pct(50, "sel.everything") {
@@ -494,6 +509,15 @@ func (S) RunTape(t *sim.Tape, st *sim.Stats, keepLog bool) *sim.Outcome {
 				// repeatability of the reference itself
 				again := w.walk(false, nil, datamodel.Path{}, false, nil)
 				check(again, w0.evs, []string{errClass(w0.err)}, "second unrestricted walk")
+			}
+			if info.K == 0 && w0.err == nil && gen.InterpretAs == "" {
+				// no block is loaded and no reifier is named: the package-level functions (a walk with
+				// nothing configured) are the same walk
+				w.pkgLevel = true
+				got := w.walkWith(nil, matching, nil, nil)
+				w.pkgLevel = false
+				check(got, w0.evs, []string{errClass(w0.err)}, "package-level walk function vs the configured walk")
+				st.Inc("probe.package_level_walk")
 			}
 		case 1: // NodeBudget = pos
 			N := pos
@@ -776,6 +800,29 @@ func (S) RunTape(t *sim.Tape, st *sim.Stats, keepLog bool) *sim.Outcome {
 			if pan0 != "" || err0 != nil || len(t0) > 200 {
 				return // no reference run to compare with
 			}
+			if pos == 0 && info.K == 0 && gen.InterpretAs == "" {
+				var paths []string
+				var perr error
+				ppan := ""
+				func() {
+					defer func() {
+						if r := recover(); r != nil {
+							if _, ok := r.(interface{ IsStepCap() }); ok {
+								panic(r)
+							}
+							ppan = fmt.Sprint(r)
+						}
+					}()
+					_, perr = traversal.WalkTransforming(w.g.RootNode, w.sel, func(p traversal.Progress, n datamodel.Node) (datamodel.Node, error) {
+						paths = append(paths, p.Path.String())
+						return n, nil
+					})
+				}()
+				if ppan != "" || perr != nil || strings.Join(paths, "\x00") != strings.Join(t0, "\x00") {
+					o.Fail("restricted-walk-differs", sig, "the package-level WalkTransforming made callbacks %q (err=%v panic=%s); the configured one, over the same link-free graph, %q", paths, perr, ppan, t0)
+				}
+				st.Inc("probe.package_level_transform")
+			}
 			N := pos
 			if N > info.V+1 {
 				return
@@ -1016,6 +1063,51 @@ func (S) RunTape(t *sim.Tape, st *sim.Stats, keepLog bool) *sim.Outcome {
 				r0 := run(op, nil)
 				if r0.pan != "" || r0.err != nil {
 					continue // no reference run (what a visited path resolves to is C14's matter)
+				}
+				if subset == 0 && len(r0.loads) == 0 {
+					// no block on the way: the package-level function (nothing configured) is the same call
+					pav, perr, ppan := "", error(nil), ""
+					func() {
+						defer func() {
+							if x := recover(); x != nil {
+								if _, ok := x.(interface{ IsStepCap() }); ok {
+									panic(x)
+								}
+								ppan = fmt.Sprint(x)
+							}
+						}()
+						avOf := func(n datamodel.Node) string {
+							if n == nil {
+								return "nil"
+							}
+							v, err := model.FromNode(n)
+							if err != nil {
+								return "unreadable:" + err.Error()
+							}
+							return fmt.Sprintf("%x", v.Hash())
+						}
+						switch op {
+						case 0:
+							var n datamodel.Node
+							if n, perr = traversal.Get(w.g.RootNode, target); perr == nil {
+								pav = avOf(n)
+							}
+						case 1:
+							perr = traversal.Focus(w.g.RootNode, target, func(p traversal.Progress, n datamodel.Node) error {
+								pav = avOf(n) + "@" + p.Path.String()
+								return nil
+							})
+						case 2:
+							_, perr = traversal.FocusedTransform(w.g.RootNode, target, func(p traversal.Progress, n datamodel.Node) (datamodel.Node, error) {
+								pav = avOf(n) + "@" + p.Path.String()
+								return n, nil
+							}, false)
+						}
+					}()
+					if ppan != "" || perr != nil || pav != r0.av {
+						o.Fail("restricted-walk-differs", sig, "the package-level %s(%q) gave %s (err=%v panic=%s); the configured call, which loads no block, gave %s", opNames[op], target.String(), pav, perr, ppan, r0.av)
+					}
+					st.Inc("probe.package_level_focus")
 				}
 				var be *traversal.ErrBudgetExceeded
 				if parsed {
